@@ -3,7 +3,7 @@ from __future__ import annotations
 
 from harness import stages
 
-PUT_CONST = {'MaxObj': 6, 'MaxClock': 3, 'DayTicks': 3, 'MaxDepth': 1}
+PUT_CONST = {'MaxObj': 6, 'MaxClock': 3, 'DayTicks': 3, 'MaxDepth': 1, 'GenLevel': 2}
 
 
 def src_untouched_judge(g, res):
